@@ -31,7 +31,10 @@ Section Sound.
   Definition good (e : Z) : Prop :=
     hist_lo <= e \/ (dictSmall = true /\ e < startIndex - dictSize)
     \/ (dist_active = true /\ e + LZ4_DISTANCE_MAX <= startIndex).
-  Definition tab_ok (c : Z) (tab : mem) : Prop := forall h, get tab h < c /\ good (get tab h).
+  (* [L]: any lower bound of the table's content the caller wants to keep track of *)
+  Variable L : Z.
+  Hypothesis HL : L <= startIndex.
+  Definition tab_ok (c : Z) (tab : mem) : Prop := forall h, L <= get tab h < c /\ good (get tab h).
 
   Hypothesis Hdt : dd = CUsingDictCtx ->
                    forall h, get dtable h + dictDelta < startIndex /\ good (get dtable h + dictDelta).
@@ -46,6 +49,9 @@ Section Sound.
 
   Lemma tab_ok_mono c c' tab : tab_ok c tab -> c <= c' -> tab_ok c' tab.
   Proof. intros H Hc h. destruct (H h). split; [lia | assumption]. Qed.
+
+  (* bound on the table content when the call returns, successful or not *)
+  Definition endB : Z := Z.max (startIndex + 1) (startIndex + inputSize).
 
   Lemma tab_ok_set c c' tab h p :
     tab_ok c tab -> c <= c' -> startIndex <= p < c' -> tab_ok c' (set tab h p).
@@ -63,7 +69,7 @@ Section Sound.
      ~ (dist_active = true /\ mi + LZ4_DISTANCE_MAX < c) -> hist_lo <= low <= mi).
   Proof.
     intros Ht Hc. unfold candidate, lowLimit0.
-    destruct (Ht h) as [Hlt Hg].
+    destruct (Ht h) as [[_ Hlt] Hg].
     assert (G : forall e, good e -> e < c ->
               ~ (dictSmall = true /\ e < startIndex - dictSize) ->
               ~ (dist_active = true /\ e + LZ4_DISTANCE_MAX < c) -> hist_lo <= e).
@@ -100,16 +106,17 @@ Section Sound.
 
   Definition NPost (n : next) : Prop :=
     match n with
-    | NLast s => SInv s /\ c_anchor s <= iend_
-    | NFail _ => True
+    | NLast s => SInv s /\ c_anchor s <= iend_ /\ tab_ok endB (c_tab s)
+    | NFail tab => tab_ok endB tab
     | NLoop s _ => SInv s /\ c_anchor s <= c_ip s /\ startIndex + 1 <= c_ip s <= mfl /\ tab_ok (c_ip s) (c_tab s)
     | NMatch s _ l mi low fi => MPre s l mi low fi
     end.
 
   Definition RPost (r : cres) : Prop :=
     match r with
-    | RFail _ => True
-    | ROk ss last consumed _ _ =>
+    | RFail tab => tab_ok endB tab
+    | ROk ss last consumed tab _ =>
+      tab_ok endB tab /\
       consumed = inputSize /\ seqs_valid vrd hist_lo startIndex ss /\
       seqs_end startIndex ss <= startIndex + inputSize /\
       last = seg vrd (seqs_end startIndex ss) (startIndex + inputSize)
@@ -137,14 +144,17 @@ Section Sound.
                   fuel s forwardIp step smn fh tab).
   Proof.
     induction fuel as [|f IH]; intros s forwardIp step smn fh tab HS Ha Hf Ht Hstep Hsmn;
-      cbn [search]; [exact I|].
+      cbn [search].
+    { cbn [NPost]. eapply tab_ok_mono; [exact Ht|]. unfold endB, mfl, mflimitPlusOne, iend, MFLIMIT in *. lia. }
     pose proof (candidate_spec forwardIp tab fh Ht ltac:(lia)) as Hc.
     destruct (candidate dd startIndex dictSize dtable dictDelta tab fh) as [mi low].
     destruct Hc as [Hmi Hlow].
     cbv zeta.
     fold mfl.
     destruct (forwardIp + step >? mfl) eqn:E1.
-    { cbn [NPost c_anchor c_seqs]. split; [exact HS|]. unfold mfl, mflimitPlusOne, iend_, iend, MFLIMIT in *. lia. }
+    { cbn [NPost c_anchor c_seqs c_tab]. split; [exact HS|].
+      split; [unfold mfl, mflimitPlusOne, iend_, iend, MFLIMIT in *; lia|].
+      eapply tab_ok_mono; [exact Ht|]. unfold endB, mfl, mflimitPlusOne, iend, MFLIMIT in *. lia. }
     assert (Ht' : tab_ok (forwardIp + 1) (set tab fh forwardIp)) by (apply (tab_ok_set forwardIp); [assumption | lia | lia]).
     assert (Hrec : NPost (search vrd tt od dd dictSmall startIndex dictSize dtable dictDelta inputSize maxOutputSize
                             f s (forwardIp + step) (smn / 2 ^ LZ4_skipTrigger) (smn + 1)
@@ -185,7 +195,8 @@ Section Sound.
       - replace (Z.max forwardIp (forwardIp - back) + 1) with (forwardIp + 1) by lia. exact Ht'. }
     destruct od; try (exfalso; apply Hod; reflexivity); cbn [andb].
     - apply Hpre.
-    - match goal with |- NPost (if ?c then _ else _) => destruct c end; [exact I | apply Hpre].
+    - match goal with |- NPost (if ?c then _ else _) => destruct c end; [|apply Hpre].
+      cbn [NPost]. eapply tab_ok_mono; [exact Ht'|]. unfold endB, mfl, mflimitPlusOne, iend, MFLIMIT in *. lia.
   Qed.
 
   (* ---- _next_match ---- *)
@@ -250,7 +261,9 @@ Section Sound.
                else NLoop (mkC (i1 + 1) i1 o (sq :: c_seqs s) tab0 (Z.max hw o)) (hashPosition vrd tt (i1 + 1)))).
     { intros o hw.
       destruct (i1 >=? mfl) eqn:E1.
-      { cbn [NPost c_anchor]. split; [apply HSq|]. unfold mlim, matchlimit, iend_, LASTLITERALS in *. lia. }
+      { cbn [NPost c_anchor c_tab]. split; [apply HSq|].
+        split; [unfold mlim, matchlimit, iend_, LASTLITERALS in *; lia|].
+        eapply tab_ok_mono; [exact Ht|]. unfold endB, mfl, mflimitPlusOne, iend, MFLIMIT in *. lia. }
       cbv zeta.
       assert (Ht1 : tab_ok i1 (set (c_tab s) (hashPosition vrd tt (i1 - 2)) (i1 - 2))).
       { apply (tab_ok_set (Z.max fi i + 1)); [exact Ht | lia|]. unfold i1, MINMATCH in *. lia. }
@@ -283,7 +296,8 @@ Section Sound.
     - (* notLimited *) apply Rest.
     - (* limitedOutput *)
       match goal with |- context [?a >? olimit maxOutputSize] => destruct (a >? olimit maxOutputSize) eqn:Eover end;
-        cbn [andb]; [exact I | apply Rest].
+        cbn [andb]; [|apply Rest].
+      cbn [NPost]. eapply tab_ok_mono; [exact Ht|]. unfold endB, mfl, mflimitPlusOne, iend, MFLIMIT in *. lia.
   Qed.
 
   Lemma chain_ok : forall fuel n, NPost n ->
@@ -295,18 +309,18 @@ Section Sound.
   Qed.
 
   Lemma last_literals_ok s :
-    SInv s -> c_anchor s <= iend_ ->
+    SInv s -> c_anchor s <= iend_ -> tab_ok endB (c_tab s) ->
     RPost (last_literals vrd od startIndex inputSize maxOutputSize s).
   Proof.
-    intros (H1 & H2 & H3) Ha. unfold last_literals. cbv zeta. fold iend_.
-    assert (G : forall hw tab, RPost (ROk (rev (c_seqs s)) (lits vrd (Z.to_nat (iend_ - c_anchor s)) (c_anchor s))
-                                       (c_anchor s + (iend_ - c_anchor s) - startIndex) tab hw)).
-    { intros hw tab. cbn [RPost]. rewrite H3.
+    intros (H1 & H2 & H3) Ha Htb. unfold last_literals. cbv zeta. fold iend_.
+    assert (G : forall hw, RPost (ROk (rev (c_seqs s)) (lits vrd (Z.to_nat (iend_ - c_anchor s)) (c_anchor s))
+                                       (c_anchor s + (iend_ - c_anchor s) - startIndex) (c_tab s) hw)).
+    { intros hw. cbn [RPost]. rewrite H3. split; [exact Htb|].
       split; [unfold iend_, iend; lia|]. split; [exact H2|]. split; [unfold iend_, iend in *; lia|].
       rewrite lits_seg by lia. f_equal. unfold iend_, iend. lia. }
     destruct od; try (exfalso; apply Hod; reflexivity).
     - apply G.
-    - match goal with |- RPost (if ?c then _ else _) => destruct c end; [exact I | apply G].
+    - match goal with |- RPost (if ?c then _ else _) => destruct c end; [exact Htb | apply G].
   Qed.
 
   Hypothesis Hacc : 1 <= acceleration.
@@ -316,7 +330,9 @@ Section Sound.
     RPost (main_loop vrd tt od dd dictSmall startIndex dictSize dtable dictDelta inputSize maxOutputSize acceleration
                      fuel s fh).
   Proof.
-    induction fuel as [|f IH]; intros s fh HS Ha Hip Ht; cbn [main_loop]; [exact I|].
+    assert (Hmfl : mfl <= endB) by (unfold endB, mfl, mflimitPlusOne, iend, MFLIMIT; lia).
+    induction fuel as [|f IH]; intros s fh HS Ha Hip Ht; cbn [main_loop].
+    { cbn [RPost]. eapply tab_ok_mono; [exact Ht | lia]. }
     cbv zeta.
     assert (Hn : NPost (chain vrd tt od dd dictSmall startIndex dictSize dtable dictDelta inputSize maxOutputSize
                           (Z.to_nat inputSize + 1)
@@ -329,10 +345,10 @@ Section Sound.
                 (search vrd tt od dd dictSmall startIndex dictSize dtable dictDelta inputSize maxOutputSize
                         (Z.to_nat inputSize + 1) s (c_ip s) 1 (acceleration * 2 ^ LZ4_skipTrigger) fh (c_tab s)))
       as [s'|tab|s' fh'|s' t l mi low fi]; cbn [NPost] in Hn.
-    - destruct Hn. apply last_literals_ok; assumption.
-    - exact I.
+    - destruct Hn as (A & B & C). apply last_literals_ok; assumption.
+    - exact Hn.
     - destruct Hn as (A & B & C & D). apply IH; assumption.
-    - exact I.
+    - destruct Hn as (_ & _ & _ & _ & _ & _ & A & B & _ & C). cbn [RPost]. eapply tab_ok_mono; [exact C | lia].
   Qed.
 
   (* LZ4_compress_generic_validated *)
@@ -348,7 +364,8 @@ Section Sound.
     { destruct od; try reflexivity. exfalso; apply Hod; reflexivity. }
     rewrite Ef. cbn [andb]. cbv zeta.
     destruct (inputSize <? LZ4_minLength) eqn:E.
-    + apply last_literals_ok; [apply HS0 | cbn [c_anchor]; unfold iend_, iend; lia].
+    + apply last_literals_ok; [apply HS0 | cbn [c_anchor]; unfold iend_, iend; lia |].
+      cbn [c_tab]. eapply tab_ok_mono; [exact Ht | unfold endB; lia].
     + apply main_loop_ok; cbn [c_anchor c_ip c_tab]; [apply HS0 | lia | | ].
       * unfold mfl, mflimitPlusOne, iend, MFLIMIT, LZ4_minLength in *. lia.
       * apply (tab_ok_set (startIndex + 1)); [exact Ht | lia | lia].
@@ -365,7 +382,7 @@ Section Sound.
       = Some (seg vrd startIndex (startIndex + inputSize)).
   Proof.
     intros Hn Ht E. pose proof (compress_validated_factor tab Hn Ht) as H. rewrite E in H.
-    cbn [RPost] in H. destruct H as (H1 & H2 & H3 & H4).
+    cbn [RPost] in H. destruct H as (_ & H1 & H2 & H3 & H4).
     split; [exact H1|].
     apply (factor_block_decodes vrd hist_lo startIndex (startIndex + inputSize) ss last Hb hist_lo_le H2 H3 H4).
   Qed.
